@@ -181,7 +181,12 @@ class Model:
             c = [i for i in self.completed if i not in self.open]
             if c:
                 return c[n % len(c)]
-        if strict and k in ("open", "search", "single", "completed"):
+        if k == "last-completed":
+            # the operation that was completed most recently (possibly by an earlier message of the same delivery)
+            c = [i for i in self.completed if i not in self.open]
+            if c:
+                return c[-1]
+        if strict and k in ("open", "search", "single", "completed", "last-completed"):
             return None
         if k == "zero":
             return 0
